@@ -32,10 +32,15 @@ RULES = {
 }
 
 
-def make_f(s):
+def make_f(s, circles=None):
+    """the user function; `circles` collects, for every evaluation on a whole circle (an array of points), the record of the
+    innermost `for` loop of the analysed code that was running - the radius search loop, whatever it is called"""
     def f(z, *a, **k):
         def one(v):
             return DV(tags_of(v) | {('f',)}, 'c')
+        if circles is not None and isinstance(z, Arr) and z.size > 1:
+            loops = s.interp.loop_stack
+            circles.append(loops[-1] if loops else None)
         return ndarr.ew1(one, z) if isinstance(z, Arr) else one(z)
     return f
 
@@ -72,15 +77,10 @@ def taylor_runs(ctx, fb):
         def body(s, n=n, max_iter=max_iter, num_extrap=num_extrap):
             I = s.interp
             T = I.get_global('fornberg', 'Taylor')
-            obj = T(make_f(s), n=n, max_iter=max_iter, num_extrap=num_extrap, full_output=True)
+            circles = []
+            obj = T(make_f(s, circles), n=n, max_iter=max_iter, num_extrap=num_extrap, full_output=True)
             log, rets = [], []
-            orig_cc = I.getattr(obj, '_check_convergence')
-
-            def cc(*a, **k):
-                r = orig_cc(*a, **k)
-                rets.append(r[0])
-                return r
-            obj.attrs['_check_convergence'] = cc
+            I.loop_log = []
             I.on_setattr = lambda o, a, v: log.append((a, I.stack[-1] if I.stack else '?')) if o is obj else None
             try:
                 coefs, info = obj(DV({('z0',)}, 'f', sel={('z0',)}))
@@ -91,7 +91,8 @@ def taylor_runs(ctx, fb):
             # before it is read (whichever method does the writing).
             state = {a for a, _ in log}
             del log[:]
-            del rets[:]
+            del circles[:]
+            I.loop_log = []
             events = []
             I.on_setattr = lambda o, a, v: (log.append((a, I.stack[-1] if I.stack else '?')), events.append(('w', a))) if o is obj else None
             I.on_getattr = lambda o, a: events.append(('r', a)) if o is obj else None
@@ -100,6 +101,12 @@ def taylor_runs(ctx, fb):
             finally:
                 I.on_setattr = None
                 I.on_getattr = None
+                I.loop_log = None
+            # the radius search loop: the `for` loop inside which the circles are evaluated; the cap was reached iff it ran out
+            search = [c for c in circles if c is not None]
+            if not search or any(c is not search[0] for c in search) or len(search) != len(circles):
+                raise AnalysisError('anchor vanished: the circle evaluations of Taylor.__call__ are not made inside one for-loop')
+            rets = {'iterations': search[0]['iterations'], 'exit': search[0]['exit'], 'circles': len(circles)}
             first = {}
             for kind, a in events:
                 first.setdefault(a, kind)
@@ -122,16 +129,17 @@ def taylor_runs(ctx, fb):
                            if not (isinstance(v, DV) and v.kind in ('c', 'z'))})
             if lost and not any(isinstance(v, DV) and v.kind in ('c', 'z') for v in elems):
                 bad_kind.append({'coefficients_not_complex': lost[:2], 'path': path[:200]})
-            converged_last = bool(rets[-1]) if rets else False
-            want_failed = not converged_last
+            want_failed = rets['exit'] == 'exhausted'
             if info.failed is not want_failed and info.failed != want_failed:
-                bad_failed.append({'failed': repr(info.failed), 'convergence_tests': [bool(r) for r in rets], 'path': path[:160]})
-            if converged_last is False and len(rets) != max_iter:
-                bad_failed.append({'loop_iterations': len(rets), 'max_iter': max_iter, 'path': path[:160]})
+                bad_failed.append({'failed': repr(info.failed), 'search_loop': rets, 'path': path[:160]})
+            if want_failed and rets['iterations'] != max_iter:
+                bad_failed.append({'loop_iterations': rets['iterations'], 'max_iter': max_iter, 'path': path[:160]})
+            if rets['circles'] != rets['iterations']:
+                bad_failed.append({'circles_evaluated': rets['circles'], 'loop_iterations': rets['iterations'], 'path': path[:160]})
         rep.check(not bad_kind, 'R-KIND', 'fornberg.Taylor.__call__', where, {'paths': len(ex.paths), 'exceptions': bad_kind[:2]},
                   'no exception on any path', label, key='kind taylor')
         rep.check(not bad_failed, 'R-FAILED', 'fornberg.Taylor.__call__', where, {'paths': len(ex.paths), 'problems': bad_failed[:2]},
-                  'failed == not converged at loop exit; cap reached iff never converged', label, key='failed')
+                  'failed exactly when the radius search loop ran out of iterations (max_iter of them), one circle per iteration', label, key='failed')
         # reset completeness
         not_reset = sorted({a for lst in stale for a in lst})
         rep.check(written and not not_reset, 'R-RESET', 'fornberg.Taylor.__call__', where,
